@@ -171,6 +171,63 @@ def watermark(ctx, drv):
         trees.rmtree(root)
 
 
+def format_table(ctx, drv):
+    """every stored format x every target format x both directions on one fixed layout: the rename bookkeeping must use the
+    suffix the file HAS when uncompressing and the requested format when compressing"""
+    from harness.trees import entry_line, digests_of, compress
+    ok = True
+    n = 0
+    for stored in FORMATS:
+        for target in ('gz', 'bz2', 'lzma', 'xz'):
+            for wm in (0, 10**9):
+                root = common.scratch_dir('gv.c13t.')
+                try:
+                    os.makedirs(os.path.join(root, 'a', 'deep'))
+                    open(os.path.join(root, 'a', 'f'), 'wb').write(b'eff')
+                    open(os.path.join(root, 'a', 'deep', 'g'), 'wb').write(b'gee')
+                    dt = entry_line('DATA', 'g', 3, digests_of(b'gee', ['SHA1'])) + '\n'
+                    draw = compress(stored, dt.encode())
+                    open(os.path.join(root, 'a', 'deep', 'Manifest' + stored), 'wb').write(draw)
+                    at = entry_line('DATA', 'f', 3, digests_of(b'eff', ['SHA1'])) + '\n' + \
+                        entry_line('MANIFEST', 'deep/Manifest' + stored, len(draw), digests_of(draw, ['SHA1'])) + '\n'
+                    araw = compress(stored, at.encode())
+                    open(os.path.join(root, 'a', 'Manifest' + stored), 'wb').write(araw)
+                    open(os.path.join(root, 'Manifest'), 'w').write(
+                        entry_line('MANIFEST', 'a/Manifest' + stored, len(araw), digests_of(araw, ['SHA1'])) + '\n')
+                    o = {'hashes': ['SHA1'], 'compress_watermark': wm, 'compress_format': target, 'force': True}
+                    world = trees.world_of(root, {'SHA1'})
+                    before = updimpl.snapshot(root)
+                    impl, eff = updimpl.run_update(root, 'Manifest', '', o)
+                    after = updimpl.snapshot(root)
+                    model, req = c03.model_update(drv, root, 'Manifest', '', o, eff, world)
+                    scen = {'op': 'format-table', 'request': req, 'options': o, 'stored': stored, 'target': target}
+                    n += 1
+                    ctx.case(json.dumps([stored, target, wm]), True, {'stored': stored, 'target': target, 'watermark': wm, 'impl': impl})
+                    d0 = len(ctx.disagreements)
+                    if model.get('err') != 'abstain':
+                        c03.compare_with_disk(ctx, scen, root, before, after, model, impl)
+                    names = sorted(p for p in after if os.path.basename(p).startswith('Manifest'))
+                    # compress: every sub-Manifest ends as Manifest.<what it had, or the target if it was plain>; uncompress: plain
+                    if wm == 0:
+                        want = ['Manifest'] + ['a/Manifest' + (stored or '.' + target), 'a/deep/Manifest' + (stored or '.' + target)]
+                    else:
+                        want = ['Manifest', 'a/Manifest', 'a/deep/Manifest']
+                    if 'ok' not in impl or names != sorted(want):
+                        ctx.fail('watermark-not-followed', scen, f'files {names}, expected {sorted(want)}; {impl}')
+                        ok = False
+                        continue
+                    problems, _ = updimpl.exact_check(root, 'Manifest', '', ['SHA1'])
+                    v = treeimpl.verify_dir(root, 'Manifest', '')
+                    if problems or v.get('ret') is not True:
+                        ctx.fail('not-exact-after-update', dict(scen, problem_paths=[]), '; '.join(problems[:4]) + ' ' + json.dumps(v)[:100])
+                        ok = False
+                    if len(ctx.disagreements) > d0:
+                        ok = False
+                finally:
+                    trees.rmtree(root)
+    ctx.tables['stored format x target format x {compress all, uncompress all} on a three-level layout'] = {'size': n, 'exhaustive': True, 'ok': ok}
+
+
 def run(ctx):
     ctx.rule = ('(a) transparency: small layouts with 1-4 sub-Manifests, EVERY assignment of {plain, gz, bz2, lzma, xz} to them '
                 '(exhaustive), consistent and tampered: directory verification, verify_path, find_path_entry, find_dist_entry must '
@@ -181,6 +238,7 @@ def run(ctx):
     ctx.assumptions = ['codec round-trips are exercised, not proved']
     drv = common.Driver()
     try:
+        format_table(ctx, drv)
         for i in range(6 if ctx.tier == 'quick' else 60):
             transparency(ctx, drv)
         for i in range(150 if ctx.tier == 'quick' else 4000):
